@@ -948,6 +948,20 @@ def rule_problem_build_table(F, ev, R, config, rule="R-PROBLEM-BUILD-TABLE"):
                 tt = tt[2]
                 neg = not neg
             atoms["weights_fit"] = (sw, not neg)
+    # the weight length must be compared with the number of *rows* of the observations
+    if "weights_fit" in atoms:
+        wt = atoms["weights_fit"][0]["term"]
+        cmp_ok = False
+        seen = []
+        for x in walk(wt):
+            if x[0] == "bin" and x[1] in ("Eq", "Ne"):
+                for side in (x[2], x[3]):
+                    seen.append(side)
+                    if is_call(side, "Matrix::nrows") and side[3][0] == Y:
+                        cmp_ok = True
+        R.add(rule, config, b.key, "weights-length-vs-rows", cmp_ok,
+              "" if cmp_ok else "the weight length is validated against `%s`, not against the number of rows of the observations: "
+              "for several right-hand sides a wrong weight vector passes and the row scaling panics" % [short(x)[:50] for x in seen][:4], b.j["span"])
     need = ["zero", "empty", "rows", "weights_fit"]
     for a in need:
         if a not in atoms:
